@@ -70,6 +70,7 @@ type scene struct {
 	seen     map[int]map[string]bool // per goroutine: hashes it has seen in L (append-only check)
 	lastLen  map[int]int
 	initSet  model.Set
+	held     map[int]heldRead // per goroutine: the last GetEntries() result it was handed, and what it contained then
 }
 
 // inspectACL is an access controller that looks at the log's entries through the context it is given
@@ -144,6 +145,11 @@ func newScene(seed int64, idx int, nsrc int, rng *rand.Rand) *scene {
 	s.bad, _ = ipfslog.NewLog(w.Store.API(), w.Idents[2], lo)
 	s.initSet = hx.Observe(s.L).Set
 	return s
+}
+
+type heldRead struct {
+	m    iface.IPFSLogOrderedEntries
+	keys []string
 }
 
 func (s *scene) tick() int64 { return atomic.AddInt64(&s.clock, 1) }
@@ -251,6 +257,16 @@ func (s *scene) do(run *evid.Run, g int, kind string, rng *rand.Rand, exact bool
 	r := &opRec{G: g, Kind: kind}
 	L := s.L
 	wit := func() map[string]any { return map[string]any{"goroutine": g, "op": kind} }
+	// what a read handed out is a value: it must not change under the reader's hands when the log moves on
+	s.mu.Lock()
+	hr, hasHeld := s.held[g]
+	s.mu.Unlock()
+	if hasHeld {
+		now := hr.m.Keys()
+		if len(now) != len(hr.keys) {
+			run.Violate("C13/read-result-mutated", det("view", "GetEntries()"), wit(), "a GetEntries() result handed to goroutine %d had %d entries when it was returned and has %d now: it aliases the log's live index", g, len(hr.keys), len(now))
+		}
+	}
 	r.Call = s.tick()
 	switch kind {
 	case "append":
@@ -300,7 +316,14 @@ func (s *scene) do(run *evid.Run, g int, kind string, rng *rand.Rand, exact bool
 		r.Ret = s.tick()
 		s.checkAntichain(run, "RawHeads()", v, wit)
 	case "getentries":
-		v := hx.Hashes(L.GetEntries().Slice())
+		ge := L.GetEntries()
+		s.mu.Lock()
+		if s.held == nil {
+			s.held = map[int]heldRead{}
+		}
+		s.held[g] = heldRead{ge, append([]string(nil), ge.Keys()...)}
+		s.mu.Unlock()
+		v := hx.Hashes(ge.Slice())
 		r.Ret = s.tick()
 		u := s.fullUniverse()
 		set := model.Set{}
